@@ -218,6 +218,37 @@ pub mod token_app {
     }
 }
 
+/// Upgrade target defined with the repository's derive macros (entry points from the tree),
+/// version = this crate's version (0.1.0); the upgrader's success path swaps it to the
+/// repository's prebuilt dummy.wasm (0.2.0).
+pub mod dummy_target {
+    use axelar_soroban_std::{interfaces, Ownable, Upgradable};
+    use soroban_sdk::{contract, contracterror, contractimpl, Address, Env};
+
+    #[contracterror]
+    #[derive(Copy, Clone, Debug, Eq, PartialEq, PartialOrd, Ord)]
+    #[repr(u32)]
+    pub enum ContractError {
+        MigrationNotAllowed = 1,
+    }
+
+    #[contract]
+    #[derive(Ownable, Upgradable)]
+    pub struct DummyTarget;
+
+    #[contractimpl]
+    impl DummyTarget {
+        pub fn __constructor(env: Env, owner: Address) {
+            interfaces::set_owner(&env, &owner);
+        }
+    }
+
+    impl DummyTarget {
+        const fn run_migration(_env: &Env, _migration_data: ()) {}
+    }
+}
+pub use dummy_target::DummyTarget;
+
 pub use principal::*;
 pub use factory::*;
 pub use caller::*;
